@@ -121,6 +121,23 @@ func variants() []variant {
 			l.Sys += "X"
 			return true
 		})
+		// a system name that repeats the name, and none at all: two different functions
+		add("func.sysname-is-name"+at, "func.sysname", func(v *vstack) bool {
+			l := line(v, lo, li)
+			if l == nil {
+				return false
+			}
+			l.Sys = l.Func
+			return true
+		})
+		add("func.sysname-empty"+at, "func.sysname", func(v *vstack) bool {
+			l := line(v, lo, li)
+			if l == nil {
+				return false
+			}
+			l.Sys = ""
+			return true
+		})
 		add("func.file"+at, "func.file", func(v *vstack) bool {
 			l := line(v, lo, li)
 			if l == nil {
